@@ -207,6 +207,19 @@ func strictFV(fv *uefi.FirmwareVolume) string {
 		prevHdrEnd = off + f.DataOffset
 		off += uint64(len(fb))
 	}
+	// header + files (with their alignment gaps) + free space account for the whole volume:
+	// after the last file either the free space begins (and reaches the end of the volume), or
+	// there is no room for another file header
+	if fv.FileSystemGUID == *uefi.FFS2 || fv.FileSystemGUID == *uefi.FFS3 {
+		end := (off + 7) &^ 7
+		if fv.FreeSpace != 0 {
+			if end+fv.FreeSpace != fv.Length {
+				return fmt.Sprintf("FAIL strict fv-files-and-free-space-do-not-tile-volume files-end=%#x free=%#x length=%#x", end, fv.FreeSpace, fv.Length)
+			}
+		} else if end+24 <= fv.Length {
+			return fmt.Sprintf("FAIL strict fv-bytes-belong-to-no-node files-end=%#x free=0 length=%#x", end, fv.Length)
+		}
+	}
 	return ""
 }
 
@@ -442,6 +455,53 @@ func genAliasImage(r *Rng) []byte {
 	return img
 }
 
+// volumes whose last file ends exactly at the end of the volume (no free space): a header-only
+// file of 24 bytes (pad, raw, or a sectioned type without sections), files of 25..40 bytes, also
+// as the nested volume of an FV-image section
+func genFlushEndImage(r *Rng) []byte {
+	mkVol := func(depth int) *uefigen.Vol {
+		v := &uefigen.Vol{FSGUID: uefigen.FFS2, Attrs: 0x4FEFF, Revision: 2, BlockSize: 8, FreeSpace: 0}
+		if r.Chance(1, 4) {
+			v.FSGUID = uefigen.FFS3
+		}
+		for i, n := 0, r.Pick(0, 0, 1, 2); i < n; i++ {
+			v.Files = append(v.Files, uefigen.GenFile(r, uefigen.Opts{Strings: true}, 1))
+		}
+		return v
+	}
+	last := func() *uefigen.File {
+		f := &uefigen.File{GUID: uefigen.GenGUID(r), State: 0xF8}
+		switch r.Intn(4) {
+		case 0:
+			f.Type, f.Body = 0xF0, []byte{}
+			for i := range f.GUID {
+				f.GUID[i] = 0xFF
+			}
+		case 1:
+			f.Type, f.Body = 0x01, []byte{}
+		case 2:
+			f.Type, f.Body = byte(r.Pick(2, 7, 9)), []byte{} // sectioned type, no sections
+		default:
+			f.Type, f.Body = 0x01, r.Bytes(r.Pick(1, 7, 8, 16))
+		}
+		return f
+	}
+	v := mkVol(0)
+	if r.Chance(1, 3) {
+		inner := mkVol(1)
+		inner.Files = append(inner.Files, last())
+		v.Files = append(v.Files, &uefigen.File{GUID: uefigen.GenGUID(r), Type: 0x0b, State: 0xF8,
+			Secs: []*uefigen.Sec{{Type: 0x17, Vol: inner}}})
+	}
+	v.Files = append(v.Files, last())
+	reg := &uefigen.Region{Elems: []uefigen.Elem{{Vol: v}}}
+	if r.Chance(1, 3) {
+		reg.Elems = append(reg.Elems, uefigen.Elem{Pad: bytes.Repeat([]byte{0xFF}, 8*r.Range(1, 6))})
+	}
+	img, _ := uefigen.EmitRegion(reg)
+	return img
+}
+
 func PPartitionStrict(args []string) string {
 	img := UnH(args[0])
 	uefiops.Reset()
@@ -508,6 +568,16 @@ func gen(r *Rng, tier string, emit Emit) {
 			continue
 		}
 		emit("P", "p_modes", H(img))
+		emit("P", "p_partition", H(img))
+		emit("P", "p_partition_strict", H(img))
+		emit("C", "parse", H(img))
+	}
+	// last file flush against the end of the volume
+	for it := 0; it < n/3; it++ {
+		img := genFlushEndImage(r.Fork(uint64(600000 + it)))
+		if len(img) == 0 || len(img) > 12000 {
+			continue
+		}
 		emit("P", "p_partition", H(img))
 		emit("P", "p_partition_strict", H(img))
 		emit("C", "parse", H(img))
